@@ -5,13 +5,13 @@
 (* final_status / cycle_machine), frappy/modules.py Drivable.isBusy.                   *)
 (*                                                                                     *)
 (* Requirement automaton over what can be observed at the module's boundary:           *)
-(*   Started             start_machine() was called / has returned                     *)
+(*   Started             start_machine() has returned                                  *)
 (*   StopReq(act, st)    stop_machine(st) returned; act = machine was active           *)
 (*   Final(st)           a state function called final_status(st) (and returns it)     *)
 (*   Hook(to, task, reason)  the machine performs a transition (to = "none": the run   *)
 (*                       ends; task = kind of the request pending at that moment,      *)
 (*                       reason = kind of the machine's cleanup_reason)                *)
-(*   Update(busy, st)    a status update is sent to the clients                        *)
+(*   Update(busy,st,own) a status update is sent to the clients (own: by start_machine)*)
 (*   Quiet(act, pend, busy, st)  nothing is executing: machine active?, pending        *)
 (*                       request kind, the module's status                             *)
 (* Status texts are not part of the property (the spec is silent on them) except that  *)
@@ -57,8 +57,9 @@ Hook(to, task, reason) ==
          /\ finalst' = AnySt /\ UNCHANGED stopst
     ELSE /\ finalst' = AnySt /\ ending' = FALSE /\ UNCHANGED <<req, stopst, fin>>
 
-(* BusyWhileRunning, update stream: no non-busy update between start request and finish *)
-Update(busy, st) == /\ req => busy
+(* BusyWhileRunning, update stream: no non-busy update between start request and finish; *)
+(* own = the update is sent by start_machine() itself (the request is being made)       *)
+Update(busy, st, own) == /\ (req \/ own) => busy
                     /\ UNCHANGED hvars
 
 (* BusyWhileRunning, state: busy iff the machine is active or about to start; the final *)
@@ -73,7 +74,7 @@ HNext == \/ Started
          \/ \E st \in Statuses : Final(st)
          \/ \E to \in {"none", "s"}, task \in {"none", "start", "stop"}, reason \in {"none", "start", "stop", "error"} :
                Hook(to, task, reason)
-         \/ \E busy \in BOOLEAN, st \in Statuses : Update(busy, st)
+         \/ \E busy \in BOOLEAN, st \in Statuses, own \in BOOLEAN : Update(busy, st, own)
          \/ \E act \in BOOLEAN, pend \in {"none", "start", "stop"}, busy \in BOOLEAN, st \in Statuses :
                Quiet(act, pend, busy, st)
 HSpec == HInit /\ [][HNext]_hvars
